@@ -1134,6 +1134,21 @@ func requiredCases(t *gcore.Type) []gcore.Case {
 			zero(all, f)
 		}
 		out = append(out, gcore.Case{ID: "present-with-zero-value[all]", Msg: all})
+		// a required ENUM field holding a number its enum does not define (or a negative one): Go's protobuf runtimes keep
+		// such numbers in the field (enums are open in Go), so the field is present and the message complete
+		for _, f := range req {
+			if f.Kind() != protoreflect.EnumKind {
+				continue
+			}
+			for _, num := range []protoreflect.EnumNumber{7, -1, 2147483647} {
+				if f.Enum().Values().ByNumber(num) != nil {
+					continue
+				}
+				m := full()
+				m.Set(f, protoreflect.ValueOfEnum(num))
+				out = append(out, gcore.Case{ID: fmt.Sprintf("present-with-undefined-enum-number[%s=%d]", f.Name(), num), Msg: m})
+			}
+		}
 		for _, f := range req {
 			m := full()
 			if zero(m, f) {
